@@ -1,5 +1,6 @@
 import MoPepGen.Model.Graph
 import MoPepGen.Model.Tvg
+import MoPepGen.Model.TvgLang
 import MoPepGen.Driver.S
 namespace MoPepGen.Driver.G
 open MoPepGen MoPepGen.Spec MoPepGen.Graph MoPepGen.Driver
@@ -153,6 +154,39 @@ def handleTvg (args : List String) : String :=
     | .error e => "error:" ++ e
   | _ => "bad-op"
 
+/-! ### `tvglang`: the record lists of the maximal paths of the model's graph, computed from
+`attached` (`Model/TvgLang.lean`; `Props.C01.tvg_attached_subs_spec`), per frame that is active
+from the start.  The harness enumerates the maximal paths of the REAL graph and compares. -/
+
+/-- key of a record list: the ids of each record joined by `+`, the records by `|`; `-` = none -/
+def hapKey (h : List Var) : String :=
+  if h.isEmpty then "-" else joinWith "|" (h.map fun v => idsKey v.ids)
+
+/-- more distinct records than this in one graph: the case is skipped on both sides -/
+def tvgLangCap : Nat := 12
+
+def handleTvgLang (args : List String) : String :=
+  match args with
+  | ["tvglang", seq, coding, orfStart, orfEnd, _startNF, endNF, _sec, hasOrf, vars] =>
+    let inp : Tvg.TvgIn :=
+      { seq := seq.toList, hasKnownOrf := parseBool coding,
+        orf := if parseBool hasOrf then some (orfStart.toNat!, orfEnd.toNat!) else none,
+        mrnaEndNF := parseBool endNF }
+    let recs := (splitList vars ';').filterMap parseRec
+    match Tvg.createVariantGraph inp recs, Tvg.initialActive inp with
+    | .ok g, .ok act =>
+      if (Tvg.varRecs g).eraseDups.length > tvgLangCap then "skip:too-many-records"
+      else
+        let fs := [0, 1, 2].filter fun f => act.getD f false
+        -- `in=`: does the input satisfy `poolInputOk`, the hypothesis of
+        -- `Props.C01.tvg_create_variant_graph_language_eq`?
+        s!"in={if Tvg.poolInputOk inp recs then 1 else 0};" ++
+        joinWith ";" (fs.map fun f =>
+          s!"f{f}=" ++ joinWith "," (sortStr ((Tvg.attachedSubs g f).map hapKey)))
+    | .error e, _ => "error:" ++ e
+    | _, .error e => "error:" ++ e
+  | _ => "bad-op"
+
 def handle (args : List String) : String :=
   match args with
   | ["cp", stage, graph, seq, coding, orfStart, orfEnd, startNF, endNF, sec, vars, rule, exc] =>
@@ -173,6 +207,7 @@ def handle (args : List String) : String :=
     let g := parseGraph graph
     toString (framePaths g f.toNat!).length
   | "tvgbuild" :: _ => handleTvg args
+  | "tvglang" :: _ => handleTvgLang args
   | _ => "bad-op"
 
 end MoPepGen.Driver.G
